@@ -215,6 +215,8 @@ def run(ctx):
                 if bad2:
                     b["mismatching_scenarios_in_this_run"] = len(bad)
                     mismatches.append(b)
+    restart_rows, rf = lc.restart_failures(binp, ctx.seed, 24 if ctx.tier == "quick" else 200)
+    failures += rf
     nfree = 240 if ctx.tier == "quick" else 3000
     if len(failures) >= 3:
         nfree = 24   # the gate scenarios already show the violation
@@ -260,7 +262,7 @@ def run(ctx):
                 "to its end. free: far head, random poke, head-moving call, queue sleeping inside Size/Head",
         "samples": [{"scenario": gate[0]["scen"], "obs": gate[0]["obs"][:8]}] if gate else [],
         "exhaustive": False,
-        "gate_scenarios": len(gate), "gate_max_delay_ms": max([r["delay_ms"] for r in gate] or [0]),
+        "restart_trials": len(restart_rows), "gate_scenarios": len(gate), "gate_max_delay_ms": max([r["delay_ms"] for r in gate] or [0]),
         "free_runs": len(free), "free_lost": len(lost),
         "free_delay_us_p50_p99_max": [delays[len(delays) // 2], delays[int(len(delays) * 0.99)], delays[-1]] if delays else [],
         "model_mismatches": len(mismatches), "oracle_failures": len(failures),
@@ -289,6 +291,13 @@ def replay(ctx, path):
             if why:
                 vlib.report_violation(ctx, {"case": c, "why": why, "observations": r["obs"]})
                 return 1
+        return 0
+    if c.get("kind") == "restart":
+        rows, rf = lc.restart_failures(binp, c.get("seed", ctx.seed), c.get("n", 24))
+        print(json.dumps({"trials": len(rows), "failing": len([r for r in rows if lc.restart_oracle(r)])}))
+        if rf:
+            vlib.report_violation(ctx, rf[0])
+            return 1
         return 0
     if c.get("kind") == "free":
         rows = run_free(binp, c["seed"], c["iter"] + 1)
